@@ -300,6 +300,70 @@ def c18_faults(rep, tmp, only=None):
             rep["samples"].append({"sizes": sizes, "setup_syscalls": [f"{n}#{i}" for n, i in s1]})
 
 
+MAP_RE = re.compile(r'^\d+\s+(mmap|munmap)\((0x[0-9a-f]+|NULL), (\d+)[^)]*\)\s+= (0x[0-9a-f]+|-?\d+)')
+
+
+def c18_unmap_ownership(rep, tmp, only=None):
+    """Address-space ownership over the syscall trace of stream setup and
+    teardown: a range that this process has unmapped and not mapped again is
+    no longer its own (another thread may have been given it). Unmapping it a
+    second time is how a refused stream tears down somebody else's."""
+    for sizes in (["4097"], ["100"], ["4096", "4097", "8192"], ["12289", "4096"], ["8192", "6000", "4096", "4100"]):
+        if only and only["sizes"] != sizes:
+            continue
+        log = os.path.join(tmp, "own.log")
+        r = run_child(["mkbuf"] + sizes, ["-e", "trace=mmap,munmap,write", "-o", log])
+        rep["evaluations"] += 1
+        rep["transitions"] += 1
+        rep["distinct_nontrivial"] += 1
+        case = {"engine": "faultx", "what": "unmap-ownership", "sizes": sizes}
+        if r.returncode != 0:
+            violate(rep, "C18/Buffer/unmap-ownership/crash", f"{case}: child exited {r.returncode}: {r.stderr[-200:]}", case)
+            continue
+        started = False
+        freed = []   # [start, end) ranges unmapped since START and not mapped again
+        bad = None
+        for line in open(log):
+            if '"START"' in line:
+                started = True
+                continue
+            if '"DONE"' in line:
+                break
+            if not started:
+                continue
+            m = MAP_RE.match(line)
+            if not m:
+                continue
+            name, addr, length, ret = m.group(1), m.group(2), int(m.group(3)), m.group(4)
+            if name == "mmap":
+                if not ret.startswith("0x"):
+                    continue
+                a = int(ret, 16)
+                b = a + length
+                # Whatever is mapped now is owned again.
+                nf = []
+                for (x, y) in freed:
+                    if y <= a or x >= b:
+                        nf.append((x, y))
+                    else:
+                        if x < a:
+                            nf.append((x, a))
+                        if y > b:
+                            nf.append((b, y))
+                freed = nf
+            else:
+                if ret != "0" or addr == "NULL":
+                    continue
+                a = int(addr, 16)
+                b = a + length
+                hit = [(x, y) for (x, y) in freed if not (y <= a or x >= b)]
+                if hit and bad is None:
+                    bad = f"munmap({addr}, {length}) covers {hex(hit[0][0])}..{hex(hit[0][1])}, which was already unmapped and not mapped again"
+                freed.append((a, b))
+        if bad:
+            violate(rep, "C18/Buffer/unmap-ownership/double-unmap", f"{case}: {bad}", case)
+
+
 def main():
     t0 = time.time()
     if sys.argv[1] == "replay":
@@ -314,6 +378,8 @@ def main():
                 rep["violations"] = [x for x in rep["violations"] if x["replay"] == case]
             elif case["what"] == "kill":
                 c17_kill(rep, tmp, "thorough", only=case)
+            elif case["what"] == "unmap-ownership":
+                c18_unmap_ownership(rep, tmp, only=case)
             else:
                 c18_faults(rep, tmp, only=case)
         finally:
@@ -343,9 +409,11 @@ def main():
             rep["rule"] = ("for 1-3 buffers created in a row, every openat/ftruncate/mmap syscall of the recorded setup history "
                            "gets an error injected (EMFILE/ENOSPC/ENOMEM) in a re-run; the affected constructor must return Err "
                            "(no panic), live buffers must account for exactly two mappings and no descriptor each, and after "
-                           "dropping everything the counts are back at the baseline")
+                           "dropping everything the counts are back at the baseline; plus, over the mmap/munmap trace of setups that are "
+                           "refused, no range is unmapped that was already unmapped and not mapped again")
             rep["assumptions"] = ["mmap with MAP_FIXED returning a different address is not injectable (it cannot happen on Linux)"]
             c18_faults(rep, tmp)
+            c18_unmap_ownership(rep, tmp)
     finally:
         shutil.rmtree(tmp, ignore_errors=True)
     rep["states"] = rep["evaluations"]
